@@ -87,7 +87,7 @@ func decide(c sop.AuthContext, named bool, resource string, acc sop.ResourceAcce
 	v.publicRL = acc.Visibility == "public" && (a == "read" || a == "list")
 
 	if v.core && (a == "write" || a == "delete") {
-		v.forbidden, v.why = true, "core-resource-" + string(a)
+		v.forbidden, v.why = true, "core-resource-"+string(a)
 		return v
 	}
 	if acc.Visibility == "system" {
@@ -110,10 +110,10 @@ func decide(c sop.AuthContext, named bool, resource string, acc sop.ResourceAcce
 
 // classKey is the abstract class of one case (the fingerprint).
 type classKey struct {
-	vis                                  sop.Visibility
-	act                                  sop.Action
+	vis                                 sop.Visibility
+	act                                 sop.Action
 	core, sys, admin, owner, role, user bool
-	why                                  string
+	why                                 string
 }
 
 func (k classKey) String() string {
@@ -258,17 +258,17 @@ func Run(r *report.Run) int {
 	roleKeys := []string{sop.RoleUser, customRole, sop.RoleGuest, "Nobody", sop.RoleAdmin}
 	userKeys := []string{"alice", "bob", "nobody"}
 	base := block{name: "base",
-		callers:   buildCallers([]string{"alice", "bob"}, false),
-		resources: []string{"SOP", "LongTermMemory", "notes"},
-		owners:    []string{"", "alice", "carol"}, // unowned, owned by caller alice (= not by caller bob), owned by a third party
+		callers:    buildCallers([]string{"alice", "bob"}, false),
+		resources:  []string{"SOP", "LongTermMemory", "notes"},
+		owners:     []string{"", "alice", "carol"}, // unowned, owned by caller alice (= not by caller bob), owned by a third party
 		roleGrants: buildGrants(roleKeys, false), userGrants: buildGrants(userKeys, false)}
 	blocks := []block{base}
 	if r.Thorough() {
 		// wide: more grant-list shapes, a user nobody grants to, a name that merely resembles a core resource
 		wide := block{name: "wide-grants",
-			callers:   buildCallers([]string{"alice", "bob", "zed"}, false),
-			resources: []string{"SOP", "LongTermMemory", "notes", "sop_notes"},
-			owners:    []string{"", "alice", "carol"},
+			callers:    buildCallers([]string{"alice", "bob", "zed"}, false),
+			resources:  []string{"SOP", "LongTermMemory", "notes", "sop_notes"},
+			owners:     []string{"", "alice", "carol"},
 			roleGrants: buildGrants(roleKeys, true), userGrants: buildGrants(userKeys, true)}
 		// orders: the role list in every order of every role set
 		orders := base
@@ -310,8 +310,8 @@ func Run(r *report.Run) int {
 									uiMap := sop.ResolveRBACMap(ctx, blueprintType, sop.EntitlementContext{AssetID: res, UserID: c.auth.UserID}, func() sop.ResourceAccess { return acc })
 									if len(uiMap) != len(actions) {
 										t.violate(r, "C34:ui-map:capability-missing", func() map[string]any {
-										return map[string]any{"caller": c.label, "resource": res, "access": describe(acc, rg, ug), "map": fmt.Sprint(uiMap)}
-									})
+											return map[string]any{"caller": c.label, "resource": res, "access": describe(acc, rg, ug), "map": fmt.Sprint(uiMap)}
+										})
 									}
 									for _, a := range actions {
 										lc++
@@ -358,10 +358,10 @@ func Run(r *report.Run) int {
 										if authz {
 											if wantAuth := decide(c.auth, false, "", acc, a); wantAuth.forbidden {
 												t.violate(r, "C34:Authorize:"+wantAuth.why+":allowed", func() map[string]any {
-												m := detail()
-												m["rule"], m["statement_forbids"], m["note"] = wantAuth.why, true, "Authorize receives no resource name: judged on access and caller only"
-												return m
-											})
+													m := detail()
+													m["rule"], m["statement_forbids"], m["note"] = wantAuth.why, true, "Authorize receives no resource name: judged on access and caller only"
+													return m
+												})
 											}
 										}
 										// R4: every UI-facing answer equals the enforcement decision
